@@ -31,9 +31,10 @@ type runCase struct {
 	Seed     int64       `json:"randSeed"`
 	Sound    bool        `json:"soundOnly"`
 	Expect   struct {
-		Effects []any    `json:"effects"`
-		Result  []string `json:"result"`
-		Events  []struct {
+		Effects     []any    `json:"effects"`
+		Result      []string `json:"result"`
+		ErrContains []any    `json:"errContains"`
+		Events      []struct {
 			Effects []any    `json:"effects"`
 			Result  []string `json:"result"`
 		} `json:"events"`
@@ -175,6 +176,15 @@ func stageRun(raw json.RawMessage) Result {
 			obs["err"] = o.ResultErr.Error()
 		}
 		return Result{OK: false, Obs: obs, Diff: fmt.Sprintf("result: spec %v, implementation %s", c.Expect.Result, o.Result)}
+	}
+	for _, frag := range strs(c.Expect.ErrContains) {
+		if o.ResultErr == nil || !strings.Contains(o.ResultErr.Error(), frag) {
+			msg := "<nil>"
+			if o.ResultErr != nil {
+				msg = o.ResultErr.Error()
+			}
+			return Result{OK: false, Obs: obs, Diff: fmt.Sprintf("error text: spec says it contains %q, implementation %q", frag, msg)}
+		}
 	}
 	for i, ee := range c.Expect.Events {
 		if i >= len(o.EvResults) {
